@@ -813,11 +813,17 @@ def c16(m, o):
             viol.append("sigmoidal with curvature 1e-3 is not close to the linear interpolant (max diff %.3g)" % np.abs(g - np.interp(ts, xs, ys)).max())
         # rolling helpers vs pandas
         series = np.array([rng.randint(-50, 50) / 4 for _ in range(rng.randint(3, 12))])
-        for periods in range(1, min(4, len(series))):
-            got = np.asarray(sfd.get_rolling_diff(periods)(jnp.array(series)), dtype=float)
+        for periods in list(range(1, min(4, len(series)))) + [0, -1, -2, -len(series), len(series) + 1]:
+            # (zero and negative periods included: pandas.Series.diff takes them)
+            try:
+                got = np.asarray(sfd.get_rolling_diff(periods)(jnp.array(series)), dtype=float)
+            except Exception as e_:  # noqa
+                got = np.array([np.inf])
+                viol.append("rolling diff periods=%d on %s raised %r" % (periods, series, e_))
+                continue
             exp = pd.Series(series).diff(periods).to_numpy()
             checks += 1
-            if not np.allclose(got, exp, equal_nan=True):
+            if got.shape != exp.shape or not np.allclose(got, exp, equal_nan=True):
                 viol.append("rolling diff periods=%d on %s: %s, pandas gives %s" % (periods, series, got, exp))
         for window in range(1, min(5, len(series)) + 1):
             for fn, name in ((jnp.mean, "mean"), (jnp.max, "max"), (jnp.sum, "sum")):
